@@ -124,3 +124,36 @@ def gz_error_path(ck, P, R="ABORT/gz-error-path"):
     ck.decide(not bad, R, "gz_error:path", "the file name is not unwrapped as UTF-8",
               "gz_error unwraps a UTF-8 conversion of the file name: for a file opened under a name that is not UTF-8 the first recorded "
               "error aborts the process", where(g, bad[0]["line"]) if bad else where(g))
+
+
+NARROW_RX = r"(index_mut|get_mut|get_unchecked_mut|split_at_mut|split_at_mut_unchecked|from_raw_parts_mut|split_first_mut|split_last_mut|take_mut|chunks_exact_mut|chunks_mut)$"
+
+
+def fold_copy_dst(ck, P, R="GUARD/fold-copy-dst"):
+    """the pclmulqdq kernel behind Crc32Fold::fold_copy asserts dst.len() == src.len() (an abort inside extern "C" inflate on a
+    CPU with that feature); the window buffer is longer than the window (padding for the SIMD copies), so a destination that is
+    the whole buffer can never have the source's length: every destination is cut out of the buffer by an index/split/get
+    with an end bound."""
+    n = 0
+    for f in sorted(P.fns.values(), key=lambda f: f.path):
+        if not f.path.startswith(Z) or f.path.startswith(Z + "crc32"):
+            continue
+        for i, c in enumerate(f.live_calls(r"crc32::Crc32Fold::fold_copy$")):
+            a = f.call_args(c)
+            if len(a) < 3:
+                continue
+            n += 1
+            ck.use_fn(f)
+            narrowing = [x for x in mir.calls_in(a[1]) if isinstance(x[1], str) and __import__("re").search(NARROW_RX, x[1])]
+            ok = False
+            for x in narrowing:
+                # an end bound: RangeTo / Range / RangeToInclusive / RangeInclusive aggregate or a second (length) argument
+                txt = mir.fmt(x, f)
+                if "RangeTo" in txt or "Range::Range" in txt or "RangeInclusive" in txt or x[1].endswith("split_at_mut") or \
+                        x[1].endswith("from_raw_parts_mut") or x[1].endswith("split_at_mut_unchecked"):
+                    ok = True
+            ck.decide(ok, R, "%s#%d" % (f.path.replace(Z, ""), i), "destination cut to a length by an end-bounded index",
+                      "%s passes `%s` as the destination of Crc32Fold::fold_copy: nothing bounds its end, and the padded window buffer is "
+                      "longer than any source slice; the pclmulqdq kernel asserts dst.len() == src.len() and the panic aborts inflate()"
+                      % (f.path.replace(Z, ""), mir.fmt(a[1], f)[:80]), where(f, c.line))
+    ck.floor(R, n, 3)
